@@ -121,7 +121,9 @@ def extract_rules(src, rep):
     from .canon import canon_view
 
     for k in KINDS:
-        f = canon_view(byname[k], src, lets=True)  # parameter locals and private helper methods of the setter are read through
+        from .canon import inline_local_closures
+
+        f = canon_view(inline_local_closures(byname[k]), src, lets=True)  # parameter locals, local closures (`let pu_parameters = || Parameters::PrivacyUnit(..)`) and private helper methods of the setter are read through
         byname[k] = f
         for n, guards in walk_guards(f.body):
             if is_call_to(n, "RewritingRule::new"):
@@ -432,7 +434,8 @@ def t2(rep, src, rules):
             if r.kind == "join" and any(c["m"] in others and ((recv_root(c)["k"] == "path" and recv_root(c)["p"].startswith("privacy_unit_tracking")) or is_call_to(recv_root(c), "PrivacyUnitTracking::new")) for c in calls):
                 rep.violation("T2", key, "rule %s is dispatched to the tracking method of the wrong side" % r.text(), where)
         elif r.kind == "table" and r.output == "SyntheticData":
-            if not any(c["m"] == "table" for c in calls) or "synthetic_data" not in show(body, 0):
+            sdb = [b["name"] for p in walk(a["pat"]) if p["k"] == "tuplestruct" and p["path"]["segs"][-1] == "SyntheticData" for b in walk(p) if b["k"] == "ident"]
+            if not any(c["m"] == "table" and recv_root(c)["k"] == "path" and recv_root(c)["p"] in sdb for c in calls):  # `.table(..)` on the value bound by the `Parameters::SyntheticData(x)` pattern of the arm
                 rep.violation("T2", key, "Table SD rule is not rewritten by SyntheticData::table", where)
     # the pass-through arm must not be reachable by a protected table unchanged: Table PUP/SD never map to table.clone()
     f = byname["table"]
